@@ -111,11 +111,14 @@ var catalogue = []string{
 	`{"data":null}`, `{"data":{"rid":"test.x"}}`, `{"soft":true}`, `{"rid":"test.x","soft":"yes"}`, `100000`, `"test.x"`,
 	// indices at and around the length of the collections of the history (3, and 4 after an add)
 	`2`, `3`, `4`, `5`,
+	`{"rid":"test.x","soft":true,"data":{"a":1}}`, `{"action":"delete","data":1}`,
 }
 
 var catalogueQuick = []string{
 	`null`, `true`, `-1`, `1`, `9223372036854775808`, `""`, `[]`, `[null]`, `{}`, `{"rid":""}`, `{"rid":"test.x","action":"delete"}`, `{"action":"x"}`, `{"data":null}`, `100000`,
 	`2`, `3`, `4`,
+	// value objects that mix the members of different kinds of value
+	`{"rid":"test.x","data":1}`, `{"rid":"test.x","soft":true,"data":{"a":1}}`, `{"action":"delete","data":1}`,
 }
 
 // corruptions returns the valid template followed by all single-node corruptions.
